@@ -22,6 +22,7 @@ INFO = {
 def run(ctx, rep):
     lib = ctx.lib
     P.limiter_machine(rep, lib)
+    P.limiter_wiring(rep, lib)
     P.sorter_slot(rep, lib)
     P.capacity(rep, lib)
     P.topn_adjacent(rep, lib)
